@@ -21,6 +21,11 @@ CHECKS = {
                 text="snp and raw are decided entirely by TLC (integer equality, 9-decimal long division); for tn93 TLC decides the column classes and counts, the closed form is float64.",
                 note="tn93 closed form (logarithms) is outside TLC: evaluated by the driver on TLC-supplied integers, tolerance 5e-9. <1024 compared sites per pair.",
                 ref="7 C07, 8"),
+    "C12": dict(tech="TLA+ pipeline protocol spec (Pipeline.tla) model-checked by TLC incl. liveness; TLC-enumerated delivery orders imposed on the real worker pools via the verif gate hook; hook traces of real runs validated against the spec by TLC (TracePipeline); outputs of jittered / repeated / multi-thread runs judged by TLC (ObsC12); Go race detector for the data-race clause",
+                text="All interleavings of reader, workers, writer and Main for <=3 (thorough 4) records and <=2 (3) workers per command topology are explored; every delivery order "
+                     "the model allows is forced on the real code and the output must be the single-threaded output; real traces must be behaviours of the spec.",
+                note="Bounded N and T in the model; large inputs only by seeded jitter. Two-stage commands are gated at the last stage only. The data-race clause is decided by the race detector (thorough tier), not by TLA+.",
+                ref="7 C12, 8"),
     "C17": dict(tech="TLC-exhaustive check of the Alphabet theory (MCAlphabet, 3375 codons, 32 characters) and TLC validation (ObsC17) of the tables dumped from the running code",
                 text="Finite and exhaustive: every one of the 3375 codons, all 32 accepted characters, all 256 byte values; the code's tables are compared entry by entry with an "
                      "independently written standard code and IUPAC set semantics.",
